@@ -505,42 +505,42 @@ Qed.
 (** * Distinct *)
 Lemma distinct_chunk_spec : forall rows cap seen o s R,
   Z.of_nat (length rows) <= cap ->
-  distinct_chunk cap rows seen = (o, s) ->
+  distinct_chunk_pre cap rows seen = (o, s) ->
   dedup_from seen (rows ++ R) = o ++ dedup_from s R.
 Proof.
   induction rows as [|r t IH]; intros cap seen o s R Hc.
-  - cbn [distinct_chunk]. intros H. injection H as <- <-. reflexivity.
-  - cbn [distinct_chunk app dedup_from]. cbn [length] in Hc.
+  - cbn [distinct_chunk_pre]. intros H. injection H as <- <-. reflexivity.
+  - cbn [distinct_chunk_pre app dedup_from]. cbn [length] in Hc.
     destruct (seen_mem (row_key r) seen).
     + intros H. apply (IH cap seen o s R); [lia|exact H].
     + destruct (cap <=? 1) eqn:E.
       * apply Z.leb_le in E. intros H. injection H as <- <-.
         destruct t; [reflexivity|cbn [length] in Hc; lia].
       * apply Z.leb_gt in E.
-        destruct (distinct_chunk (cap - 1) t (row_key r :: seen)) as [o' s'] eqn:E2.
+        destruct (distinct_chunk_pre (cap - 1) t (row_key r :: seen)) as [o' s'] eqn:E2.
         intros H. injection H as <- <-. cbn [app]. f_equal.
         apply (IH (cap - 1) _ o' s' R); [lia|exact E2].
 Qed.
 
-Lemma distinct_next_none : forall cs seen, Forall small_chunk cs -> distinct_next seen cs = None ->
+Lemma distinct_next_none : forall cs seen, Forall small_chunk cs -> distinct_next_pre seen cs = None ->
   dedup_from seen (rows_of cs) = [].
 Proof.
   induction cs as [|c rest IH]; intros seen W; [reflexivity|].
-  inversion W as [|c' r' [Wc Hc] Wr]; subst. cbn [distinct_next].
-  destruct (distinct_chunk 2048 (lrows c) seen) as [o s] eqn:E.
+  inversion W as [|c' r' [Wc Hc] Wr]; subst. cbn [distinct_next_pre].
+  destruct (distinct_chunk_pre 2048 (lrows c) seen) as [o s] eqn:E.
   pose proof (lrows_length c Wc) as L.
   rewrite rows_of_cons, (distinct_chunk_spec (lrows c) 2048 seen o s (rows_of rest) ltac:(lia) E).
   destruct o; [|discriminate]. intros H. cbn [app]. apply IH; assumption.
 Qed.
 
 Lemma distinct_next_some : forall cs seen c seen' rest, Forall small_chunk cs ->
-  distinct_next seen cs = Some (c, seen', rest) ->
+  distinct_next_pre seen cs = Some (c, seen', rest) ->
   (length rest < length cs)%nat /\ Forall small_chunk rest /\
   dedup_from seen (rows_of cs) = lrows c ++ dedup_from seen' (rows_of rest).
 Proof.
   induction cs as [|c0 rest0 IH]; intros seen c seen' rest W; [discriminate|].
-  inversion W as [|c' r' [Wc Hc] Wr]; subst. cbn [distinct_next].
-  destruct (distinct_chunk 2048 (lrows c0) seen) as [o s] eqn:E.
+  inversion W as [|c' r' [Wc Hc] Wr]; subst. cbn [distinct_next_pre].
+  destruct (distinct_chunk_pre 2048 (lrows c0) seen) as [o s] eqn:E.
   pose proof (lrows_length c0 Wc) as L.
   rewrite rows_of_cons, (distinct_chunk_spec (lrows c0) 2048 seen o s (rows_of rest0) ltac:(lia) E).
   destruct o as [|r o].
@@ -550,10 +550,10 @@ Proof.
 Qed.
 
 Lemma distinct_spec_l cs : Forall small_chunk cs ->
-  rows_of (drain_distinct cs) = dedup_from [] (rows_of cs).
+  rows_of (drain_distinct_pre cs) = dedup_from [] (rows_of cs).
 Proof.
-  intros W. unfold drain_distinct.
-  apply (drain_st_spec distinct_next (fun _ cs => Forall small_chunk cs)
+  intros W. unfold drain_distinct_pre.
+  apply (drain_st_spec distinct_next_pre (fun _ cs => Forall small_chunk cs)
              (fun seen cs => dedup_from seen (rows_of cs))).
   - intros seen cs0 W0. apply distinct_next_none, W0.
   - intros seen cs0 c seen' rest W0 H. destruct (distinct_next_some _ _ _ _ _ W0 H) as (A & B & C). auto.
@@ -563,49 +563,66 @@ Qed.
 
 (** the proposed repair of C11-K5: no bound on the chunk size is needed *)
 Lemma distinct_chunk_fix_spec : forall rows seen o s R,
-  distinct_chunk_fix rows seen = (o, s) ->
+  distinct_chunk rows seen = (o, s) ->
   dedup_from seen (rows ++ R) = o ++ dedup_from s R.
 Proof.
   induction rows as [|r t IH]; intros seen o s R.
-  - cbn [distinct_chunk_fix]. intros H. injection H as <- <-. reflexivity.
-  - cbn [distinct_chunk_fix app dedup_from].
+  - cbn [distinct_chunk]. intros H. injection H as <- <-. reflexivity.
+  - cbn [distinct_chunk app dedup_from].
     destruct (seen_mem (row_key r) seen).
     + intros H. apply (IH seen o s R H).
-    + destruct (distinct_chunk_fix t (row_key r :: seen)) as [o' s'] eqn:E2.
+    + destruct (distinct_chunk t (row_key r :: seen)) as [o' s'] eqn:E2.
       intros H. injection H as <- <-. cbn [app]. f_equal. apply (IH _ o' s' R E2).
 Qed.
-Lemma distinct_next_fix_none : forall cs seen, distinct_next_fix seen cs = None ->
+Lemma distinct_next_fix_none : forall cs seen, distinct_next seen cs = None ->
   dedup_from seen (rows_of cs) = [].
 Proof.
-  induction cs as [|c rest IH]; intros seen; [reflexivity|]. cbn [distinct_next_fix].
-  destruct (distinct_chunk_fix (lrows c) seen) as [o s] eqn:E.
+  induction cs as [|c rest IH]; intros seen; [reflexivity|]. cbn [distinct_next].
+  destruct (distinct_chunk (lrows c) seen) as [o s] eqn:E.
   rewrite rows_of_cons, (distinct_chunk_fix_spec (lrows c) seen o s (rows_of rest) E).
   destruct o; [|discriminate]. intros H. cbn [app]. now apply IH.
 Qed.
 Lemma distinct_next_fix_some : forall cs seen c seen' rest,
-  distinct_next_fix seen cs = Some (c, seen', rest) ->
+  distinct_next seen cs = Some (c, seen', rest) ->
   (length rest < length cs)%nat /\
   dedup_from seen (rows_of cs) = lrows c ++ dedup_from seen' (rows_of rest).
 Proof.
-  induction cs as [|c0 rest0 IH]; intros seen c seen' rest; [discriminate|]. cbn [distinct_next_fix].
-  destruct (distinct_chunk_fix (lrows c0) seen) as [o s] eqn:E.
+  induction cs as [|c0 rest0 IH]; intros seen c seen' rest; [discriminate|]. cbn [distinct_next].
+  destruct (distinct_chunk (lrows c0) seen) as [o s] eqn:E.
   rewrite rows_of_cons, (distinct_chunk_fix_spec (lrows c0) seen o s (rows_of rest0) E).
   destruct o as [|r o].
   - intros H. destruct (IH _ _ _ _ H) as (A & C). split; [cbn [length]; lia|]. cbn [app]. exact C.
   - intros H. injection H as <- <- <-. split; [cbn [length]; lia|]. reflexivity.
 Qed.
-Lemma distinct_fix_spec_l cs : rows_of (drain_distinct_fix cs) = dedup_from [] (rows_of cs).
+Lemma distinct_fix_spec_l cs : rows_of (drain_distinct cs) = dedup_from [] (rows_of cs).
 Proof.
-  unfold drain_distinct_fix.
-  apply (drain_st_spec distinct_next_fix (fun _ _ => True) (fun seen cs => dedup_from seen (rows_of cs))).
+  unfold drain_distinct.
+  apply (drain_st_spec distinct_next (fun _ _ => True) (fun seen cs => dedup_from seen (rows_of cs))).
   - intros seen cs0 _. apply distinct_next_fix_none.
   - intros seen cs0 c seen' rest _ H. destruct (distinct_next_fix_some _ _ _ _ _ H) as (A & C). auto.
   - exact I.
   - apply fuel_of_gt.
 Qed.
-(** on the chunks every engine producer emits the repaired operator answers as the current one *)
+(** every chunk the operator emits is plain (no selection vector) *)
+Lemma distinct_next_plain : forall cs seen c seen' rest,
+  distinct_next seen cs = Some (c, seen', rest) -> c_sel c = None /\ (length rest < length cs)%nat.
+Proof.
+  induction cs as [|c0 rest0 IH]; intros seen c seen' rest; [discriminate|]. cbn [distinct_next].
+  destruct (distinct_chunk (lrows c0) seen) as [o s]. destruct o as [|r o].
+  - intros H. destruct (IH _ _ _ _ H) as [A B]. split; [exact A|cbn [length]; lia].
+  - intros H. injection H as <- _ <-. split; [reflexivity|cbn [length]; lia].
+Qed.
+Lemma distinct_out_wf_l cs : Forall chunk_wf (drain_distinct cs).
+Proof.
+  unfold drain_distinct. generalize (fuel_of cs) as fuel, (@nil rowkey) as seen. intros fuel. revert cs.
+  induction fuel as [|f IH]; intros cs seen; [constructor|]. cbn [drain_st].
+  destruct (distinct_next seen cs) as [[[c s'] rest]|] eqn:E; [|constructor].
+  constructor; [|apply IH]. destruct (distinct_next_plain _ _ _ _ _ E) as [A _].
+  unfold chunk_wf. now rewrite A.
+Qed.
+(** on the chunks every engine producer emits the operator before 24f6dab answered as the current one *)
 Lemma distinct_fix_same_small cs : Forall small_chunk cs ->
-  rows_of (drain_distinct_fix cs) = rows_of (drain_distinct cs).
+  rows_of (drain_distinct cs) = rows_of (drain_distinct_pre cs).
 Proof. intros W. now rewrite distinct_fix_spec_l, distinct_spec_l. Qed.
 
 (** what [dedup_from] returns: every key of the input once, in first-occurrence order *)
@@ -907,13 +924,13 @@ Proof.
   intros k st H. rewrite <- cnt_count_key. now apply C.
 Qed.
 
-Lemma distinct_each_once_l cs : Forall small_chunk cs ->
+Lemma distinct_each_once_l cs :
   let out := rows_of (drain_distinct cs) in
   NoDup (map row_key out)
   /\ (forall r, In r (rows_of cs) -> In (row_key r) (map row_key out))
   /\ (forall r, In r out -> In r (rows_of cs)).
 Proof.
-  intros W out. unfold out. rewrite distinct_spec_l by exact W.
+  intros out. unfold out. rewrite distinct_fix_spec_l.
   destruct (dedup_keys (rows_of cs) []) as [A B]. split; [exact A|split].
   - intros r H. apply B. split; [now apply in_map|intros []].
   - intros r. apply dedup_sub.
